@@ -40,6 +40,11 @@ properties; reference \\uN decoding), IfaceGen.tla (bounded universes + laws), I
    structures of DOCX / ODT: every sequence of <= 4 (thorough 5) items over h1 h2 h3 paragraph empty-paragraph table
    (trailing heading, trailing empty paragraphs, no level-1 heading, no preamble, ...) with and without pictures --
    no accessor of any unit raises (quick: all structures of <= 3 items + a seeded 40 % of those with 4).
+2f. Round-7 families: inputs that yield more than one result -- mailboxes with 2 and 3 messages (degens universe, every
+   path form) and archives with 2..3 members (IfaceGen mode multis; FileMeta events carry the result index, the
+   header the member of every result): the path clause holds for EVERY result; picture parts whose extension is
+   outside the extractors' content-type tables (svg, webp, jp2, none, upper case, unknown, dotted) in DOCX / PPTX /
+   XLSX / ODT / ODS / ODP / ODG / EPUB (mode picexts): every image accessor returns its declared type, none raises.
 3. code -> spec: a recorder calls the WHOLE accessor protocol on every result and every unit, image and table
    reachable from it and logs one event per call with the projected return (or the exception); the same is done
    for every repository fixture, for seeded mutants (truncation, byte flips, zeroed / 0xFF ranges, applied to
@@ -235,7 +240,7 @@ def run(ctx):
         "cases": lambda: run_tlc("IfaceGen", _gen_cfg("cases", formats, 1, max_val, False), scratch=ctx.scratch,
                                  workers=4, dump=d_cases, timeout=900),
     }
-    d_extra = {m: ctx.scratch / f"{m}.dump" for m in ("heads", "opfs", "alts", "srcs", "lens", "pdfs", "ncrs", "degens", "names", "members", "structs")}
+    d_extra = {m: ctx.scratch / f"{m}.dump" for m in ("heads", "opfs", "alts", "srcs", "lens", "pdfs", "ncrs", "degens", "names", "members", "structs", "picexts", "multis")}
     for m in d_extra:
         runs[m] = (lambda m=m: run_tlc("IfaceGen", _gen_cfg(m, formats, 1, 1, False, invs=["Inv_Member"] if m == "members" else [],
                                                             pdf_bytes=range(127, 256), max_struct=5 if ctx.thorough else 4),
@@ -268,6 +273,8 @@ def run(ctx):
     ev.tlc("IfaceGen names: naming attributes of unit containers", tr["names"])
     ev.tlc("IfaceGen members: archive x member name form x archive path form; member-path law", tr["members"])
     ev.tlc("IfaceGen structs: heading structures of DOCX / ODT, with and without pictures", tr["structs"])
+    ev.tlc("IfaceGen picexts: picture parts with extensions outside the extractors' tables", tr["picexts"])
+    ev.tlc("IfaceGen multis: archives with 2..3 members x archive path forms", tr["multis"])
     for k in ("laws", "units", "cases", "opfs", "members"):
         if tr[k].violated:
             v.violation(what=f"IfaceGen ({k}): {tr[k].violated} violated on the specification", observed=tr[k].trace[:1])
@@ -292,7 +299,8 @@ def run(ctx):
             f"{len(extra['srcs'])} picture sources, {len(extra['lens'])} geometry values, {len(extra['pdfs'])} tagged PDFs, "
             f"{len(extra['ncrs'])} character-reference cases, {len(extra['degens'])} degenerate inputs x path forms, "
             f"{len(extra['names'])} container-name cases, {len(extra['members'])} archive-member cases, "
-            f"{len(extra['structs'])} heading structures")
+            f"{len(extra['structs'])} heading structures, {len(extra['picexts'])} picture-extension cases, "
+            f"{len(extra['multis'])} multi-member archives")
 
     # ------------------------------------------------------------------ 2. jobs
     if os.path.exists(L.NX_ROOT):
@@ -382,6 +390,37 @@ def run(ctx):
             job.update(parg=None, mat=False)
         add(job, kind="member", abstract={"arch": c["arch"], "member": c["member"], "member_name": mname, "path": c["path"]},
             fmt=c["arch"])
+    # archives with several members: every result reports its own member's path
+    for i, c in enumerate(extra["multis"]):
+        r2 = random.Random(f"{ctx.seed}:multi:{i}")
+        spelled = []
+        for am in c["members"]:
+            am = dict(am, abs=am["abs"] and c["arch"] != "7z")        # the 7z reader refuses absolute names
+            spelled.append(L.spell_member(am, r2))
+        names = [nm for _, nm in spelled]
+        if len(set(n.lstrip("/") for n in names)) != len(names):
+            continue
+        try:
+            data = L.archive_bytes(c["arch"], names)
+        except ImportError:
+            continue
+        sp = L.spell_path(c["path"], r2)
+        job = {"id": f"multi:{i}", "fmt": c["arch"], "data": data, "sp": sp, "expect_results": len(names)}
+        if sp["root"] == "none":
+            job.update(sp=dict(sp, root="dc"), parg=None, mat=False)
+        else:
+            sp["exts"] = list(L.ARCH_EXTS[c["arch"]])
+            seg = ".".join([sp["stem"]] + sp["exts"]) + "!"
+            job["members"] = [{"k": "member", "archseg": seg, **m} for m, _ in spelled]
+        add(job, kind="multi", abstract={"arch": c["arch"], "members": names, "path": c["path"]}, fmt=c["arch"])
+    # picture parts with extensions outside the extractors' content-type tables
+    for i, c in enumerate(extra["picexts"]):
+        x = c["x"]
+        d0 = L.enrich(rich_doc(x["fmt"], ctx.seed))
+        data = (L.epub_with_images(d0, x["ext"], ctx.seed) if x["fmt"] == "epub"
+                else render(L.rename_images(d0, x["ext"]), x["fmt"]))
+        add({"id": f"picext:{i}", "fmt": x["fmt"], "data": data, "sp": dict(none_sp0), "parg": None, "mat": False},
+            kind="picext", abstract=x, fmt=x["fmt"])
     # heading structures of the flow formats
     struct_rng = random.Random(ctx.seed + 7)
     for i, c in enumerate(extra["structs"]):
@@ -481,6 +520,9 @@ def run(ctx):
             raise MachineryError(f"worker failed on {j['id']}: {r['msg']}")
         if r["status"] != "ok":
             continue
+        if j.get("expect_results") and r["nres"] != j["expect_results"]:
+            stat[(m["kind"], "other-result-count")] = stat.get((m["kind"], "other-result-count"), 0) + 1
+            continue                      # which members yield a result is C10's business: the mapping result -> member is lost
         hdr = dict(r["hdr"])
         if m["kind"] == "mutant":
             hdr["fmt"] = ""
@@ -489,7 +531,7 @@ def run(ctx):
             traces.append({"id": f"{j['id']}@{k}", "hdr": hdr, "ev": evs[k:k + L.MAX_EVENTS_PER_TRACE]})
             owner.append((j, r, k))
     ctx.log("extraction outcomes: " + ", ".join(f"{k[0]}/{k[1]}={n}" for k, n in sorted(stat.items())))
-    gen_kinds = ("path", "case", "units", "imgdamage", "head", "opf", "alt", "src", "len", "pdf", "ncr", "degen", "name", "member", "struct")
+    gen_kinds = ("path", "case", "units", "imgdamage", "head", "opf", "alt", "src", "len", "pdf", "ncr", "degen", "name", "member", "struct", "multi", "picext")
     gen_total = sum(n for (k, s), n in stat.items() if k in gen_kinds)
     gen_ok = sum(n for (k, s), n in stat.items() if k in gen_kinds and s == "ok")
     if gen_ok < 0.9 * gen_total:
@@ -542,7 +584,7 @@ def run(ctx):
         if r["status"] == "ok" and m["kind"] != "fixture":
             ev.nontrivial((m["kind"], json.dumps(m.get("abstract"), sort_keys=True), m.get("file"), r.get("msg")))
     shown = 0
-    for want in ("path", "case", "units", "head", "opf", "alt", "src", "len", "pdf", "ncr", "degen", "name", "member", "struct", "imgdamage", "fixture", "mutant"):
+    for want in ("path", "case", "units", "head", "opf", "alt", "src", "len", "pdf", "ncr", "degen", "name", "member", "struct", "multi", "picext", "imgdamage", "fixture", "mutant"):
         for j in jobs:
             m, r = meta[j["id"]], results[j["id"]]
             if m["kind"] == want and r["status"] == "ok" and r["events"]:
@@ -563,6 +605,7 @@ def run(ctx):
                       "geometry_cases": len(extra["lens"]), "tagged_pdf_cases": len(extra["pdfs"]), "ncr_cases": len(extra["ncrs"]),
                       "degenerate_cases": len(extra["degens"]), "container_name_cases": len(extra["names"]),
                       "archive_member_cases": len(extra["members"]), "heading_structures": len(extra["structs"]),
+                      "picture_extension_cases": len(extra["picexts"]), "multi_member_archives": len(extra["multis"]),
                       "fixtures": len(fixtures), "mutants_tried": sum(n for (k, s), n in stat.items() if k == "mutant"),
                       "mutants_accepted": acc, "accessor_events_validated": n_events,
                       "skipped_timeouts": sum(n for (k, s), n in stat.items() if s == "timeout"), "formats": formats})
